@@ -211,6 +211,12 @@ class Type3Tag(nfc.tag.Tag):
             if attributes['ver'] >> 4 != 1:
                 log.debug("unsupported ndef mapping major version")
                 return None
+            if attributes['nbr'] == 0:
+                log.debug("number of blocks to read at once is zero")
+                return None
+            if attributes['ln'] > attributes['nmaxb'] * 16:
+                log.debug("ndef data length exceeds the maximum size")
+                return None
 
             last_block_number = 1 + (attributes['ln'] + 15) // 16
             data = bytearray()
@@ -710,6 +716,9 @@ class Type3Tag(nfc.tag.Tag):
 
         """
         idm = self.idm if send_idm else bytearray()
+        if 2 + len(idm) + len(cmd_data) > 255:
+            log.debug("command data does not fit into a frame")
+            raise Type3TagCommandError(DATA_SIZE_ERROR)
         cmd = bytearray([2+len(idm)+len(cmd_data), cmd_code]) + idm + cmd_data
         log.debug(">> {0:02x} {1:02x} {2} {3} ({4}s)".format(
                 cmd[0], cmd[1], hexlify(cmd[2:10]).decode(),
